@@ -59,7 +59,7 @@ class WishartPrior(Prior):
         logdetp = torch.logdet(X)
         Kinvp = torch.matmul(self.K_inv, X)
         trKinvp = torch.diagonal(Kinvp, dim1=-2, dim2=-1).sum(-1)
-        return self.C + 0.5 * (self.nu - self.n - 1) * logdetp - trKinvp
+        return self.C + 0.5 * (self.nu - self.n - 1) * logdetp - 0.5 * trKinvp
 
 
 class InverseWishartPrior(Prior):
